@@ -140,6 +140,13 @@ func init() {
 		p := pPtsC02(s, 2)
 		return []string{is(s2.VerifExactCompareDistance(p[0], p[1], pF(s[6])))}
 	}
+	replayers["c02err"] = func(s []string) []string {
+		// the error bounds computed by cosDistance / sin2Distance themselves (bit patterns)
+		ps := pPtsC02(s, 2)
+		c, ce := s2.VerifCosDistance(ps[0], ps[1])
+		n, ne := s2.VerifSin2Distance(ps[0], ps[1])
+		return []string{fx(c), fx(ce), fx(n), fx(ne)}
+	}
 	replayers["c02sdp"] = func(s []string) []string {
 		p := pPtsC02(s, 2)
 		tri := s2.VerifTriageSignDotProd(p[0], p[1])
@@ -501,6 +508,7 @@ func genC02(g *G) {
 			db = s2.Rotate(da, x, s1.Angle(r.Float()*6))
 		}
 		g.emit("c02cmpd", ptArgs(x, da, db)...)
+		g.emit("c02err", ptArgs(x, da)...)
 
 		// ---- distance against a chord-angle limit
 		y := da
